@@ -366,6 +366,9 @@ namespace Dune {
           if(T(lower) == val) return lower;
           // make sure we're really lower in case the cast truncated to an unexpected direction
           if(T(lower) > val) lower--; // now val-lower < 1
+          // lower+1 is not representable in I: lower is the truncated value (lower+1 would overflow,
+          // or wrap to the smallest value for integer types narrower than int)
+          if(lower == std::numeric_limits<I>::max()) return lower;
           // check whether lower + 1 is approximately val
           if(eq<T, cstyle>(T(lower+1), val, epsilon))
             return lower+1;
